@@ -68,6 +68,12 @@ CHECKS["C08"] = dict(level="model_checking", design="DESIGN.md §6 C08, §3.1 Ap
          "recycling; Trace_Api.tla keeps memo[h][x] and requires every outcome to equal both the fresh-validator outcome and the first outcome for that value.",
     note="Outcome = verdict + message set (digest). The spec's contribution is the memo/stateless monitor; detection rests on the definitions and value tables (nested arrays, recovered format-checker panics).")
 
+CHECKS["C12"] = dict(level="exploration", design="DESIGN.md §6 C12, §3.1 Api (frame conditions)",
+    technique="frame conditions (UNCHANGED inputs) of the Api specification checked by TLC (Trace_Frame.tla) on deep before/after snapshots recorded around every public call",
+    text="Exploration, spec-checked: every recorded call carries the tagged deep snapshot of each input before and after; the TLA+ monitor requires equality and computes the differing JSON pointer. "
+         "The specification contributes only the frame condition; the detection power is the generator (defaults, duplicated required names, unsorted arrays under uniqueItems, documents with defaults/examples/refs).",
+    note="Snapshots via encoding/json; spec.Schema round-trips through its own marshaller. Self-referential definitions are excluded as the property says.")
+
 NOT_YET = {}
 
 
